@@ -259,7 +259,8 @@ func (w *world) recvLight(s core.Step) error {
 func (w *world) deliverLight(lb *types.LightBlock, from peer.ID) error {
 	_, _, _, ltTopic, _ := w.h.Topics(w.host.ID())
 	raw := w.h.EncodeMsg(lb)
-	_, decodeFailed := w.h.ReceiveRaw(ltTopic, raw, from, from)
+	// the forwarding neighbour (receiveFrom, the "sender" a full block is requested from) differs from the publisher
+	_, decodeFailed := w.h.ReceiveRaw(ltTopic, raw, from, w.peers[0])
 	if decodeFailed {
 		return fmt.Errorf("harness: own light block did not decode")
 	}
